@@ -1,3 +1,51 @@
-(* C05 — placeholder statements are added with the proofs; see DESIGN.md *)
+(* C05 — Each request gets at most one final outcome and then falls silent. Statements only.
+   Model.step is the client model compared with the implementation on every run (suite agent). Finals are Retry, Failed
+   and Received of a response; ids are assumed never reused (fresh_trace). *)
 From Coq Require Import List NArith Bool.
-From Rustun Require Import Agent.Rto Agent.Model Agent.Monitors.
+Import ListNotations.
+From Rustun Require Import Agent.Rto Agent.Model Proofs.AgentInv Proofs.AgentTrace.
+Open Scope N_scope.
+
+(* the invariant: one timer entry per outstanding request, no duplicates, for every reachable state *)
+Theorem C05_inv_step : forall c o, Inv c -> fresh_for c o -> Inv (fst (fst (step c o))).
+Proof. exact AgentInv.inv_step. Qed.
+Theorem C05_inv_init : forall cf m, Inv (init cf m).
+Proof. exact AgentInv.inv_init. Qed.
+Print Assumptions C05_inv_step.
+
+(* what one call may emit: finals are outstanding before and gone after, pairwise distinct; retransmissions and
+   notifications only name requests outstanding after the call; ids enter the table only through send_request *)
+Theorem C05_step_events_spec : forall c o, Inv c -> fresh_for c o -> let '(c', _, ev) := step c o in step_ok c o c' ev.
+Proof. exact AgentTrace.step_events_spec. Qed.
+Print Assumptions C05_step_events_spec.
+
+(* over any history, of any length, with any number of concurrent requests, any timer lateness, any replies *)
+Theorem C05_at_most_one_final : forall ops c, Inv c -> fresh_trace (ids_t (T c)) ops -> NoDup (finals (snd (run c ops))).
+Proof. exact AgentTrace.at_most_one_final. Qed.
+Print Assumptions C05_at_most_one_final.
+
+Theorem C05_silent_after_final : forall c ops1 ops2 x,
+  Inv c -> fresh_trace (ids_t (T c)) (ops1 ++ ops2) -> In x (finals (snd (run c ops1))) ->
+  let evs2 := snd (run (fst (run c ops1)) ops2) in
+  (forall p, ~ In (Out x false p) evs2) /\ (forall left, ~ In (Notif x left) evs2) /\ ~ In (Retry x) evs2 /\
+  (forall rs, ~ In (Failed x rs) evs2) /\ (forall m, is_response m = true -> m_id m = x -> ~ In (Received m) evs2).
+Proof. exact AgentTrace.silent_after_final_explicit. Qed.
+Print Assumptions C05_silent_after_final.
+
+(* a response is only ever delivered for a transaction still awaiting one; late and duplicate responses are discarded *)
+Theorem C05_late_response_discarded : forall c now w,
+  ~ In (m_id w) (ids_t (T c)) -> is_response w = true -> step c (Recv now true w) = (c, RDiscarded, []).
+Proof. exact AgentTrace.late_response_discarded. Qed.
+Theorem C05_response_after_final_discarded : forall c ops x now w,
+  Inv c -> fresh_trace (ids_t (T c)) ops -> In x (finals (snd (run c ops))) -> m_id w = x -> is_response w = true ->
+  step (fst (run c ops)) (Recv now true w) = (fst (run c ops), RDiscarded, []).
+Proof. exact AgentTrace.response_after_final_discarded. Qed.
+Print Assumptions C05_response_after_final_discarded.
+
+(* non-vacuity: a request, its retransmission, its response, then a duplicate of the response *)
+Example C05_example :
+  let cf := {| reliable := false; cf_rm := 16; cf_rc := 7; limit := 10; use_fp := false |} in
+  let resp := {| m_class := CSuccess; m_method := 1; m_id := 0; m_attrs := [] |} in
+  map (fun x => snd (fst x)) [step (fst (run (init cf MNone) [Send 0 0 500 1 [] true; Tmo 500; Recv 600 true resp])) (Recv 700 true resp)]
+  = [RDiscarded].
+Proof. vm_compute. reflexivity. Qed.
